@@ -412,8 +412,12 @@ def case_frame_cycle(rng):
         fr = BoolGridFrame(s, H, W)
 
         def call():
+            from cspuz.configuration import config
             f = G.active_edges_single_path if path else G.active_edges_single_cycle
-            r = f(s, fr, use_graph_primitive=prim)
+            if not path and prim == bool(config.use_graph_primitive) and rng.random() < 0.4:
+                r = fr.single_loop()        # the frame's own convenience method: same constraint, configured encoding
+            else:
+                r = f(s, fr, use_graph_primitive=prim)
             assert r.shape == (H + 1, W + 1), r.shape
             return [pexpr(x) for x in r.data]
         return call
